@@ -22,7 +22,7 @@ theorem invB_loc_atm1 {s : State} {t : Tid} {e : Event} {x' : Thr} (hi : InvB s)
   | sigLd site obs hl hs ho => split <;> locB_case hl
   | casFail exp new obs hl ho hne => locB_case hl
   | wRmCasFail r exp new obs hl hr => locB_case hl
-  | sRcCasFail site r exp new obs hl => locB_case hl
+  | sRcCasFail site r exp new obs hl hr0 => locB_case hl
   | wwLd obs f rest hl hlist => by_cases hc : wantTransfer (s.recs f).lt obs (s.thr t).list.length (s.thr t).allReaders = true <;> simp only [hc, if_true, if_false] <;> locB_case hl
   | wwRelLd site obs hl => rcases hl with ⟨_, hl⟩ | ⟨_, hl⟩ <;> locB_case hl
   | wwCasFail exp new obs hl => locB_case hl
